@@ -121,7 +121,12 @@ def impl(case):
             darr = np.array(data)
             if all(float(v).is_integer() for v in data):
                 darr = darr.astype("int64" if len(data) % 2 else "int16")      # elevations / counts: the reduction must not be truncated
-            g = vd.KNeighbors(k=k, reduction=REDS[red]).fit((np.array(es), np.array(ns)), darr)
+            ce, cn = np.array(es), np.array(ns)
+            g = vd.KNeighbors(k=k, reduction=REDS[red]).fit((ce, cn), darr)
+            # the caller goes on using its own arrays after the fit (in place): the fitted model must not follow them
+            darr[...] = 0
+            ce += 1000.0
+            cn *= -3.0
             r = g.predict((C.mkarr(qe, shape2d, "qe:" + case["op"]), C.mkarr(qn, shape2d, "qn:" + case["op"])))
             if list(r.shape) != list(shape2d):
                 raise RuntimeError("wrong output shape")
@@ -143,6 +148,11 @@ def impl(case):
                 ge, gn = grid
                 vals = np.arange(1.0, len(ge) * len(gn) + 1).reshape(len(gn), len(ge))
                 ds = xr.Dataset({"v": (("y", "x"), vals)}, coords={"x": np.array(ge), "y": np.array(gn)})
+                if (len(ge) + len(gn)) % 2:
+                    # the same grid built coordinates-first (or after Dataset arithmetic): Dataset.dims is then registered as
+                    # (x, y) although the variable is (y, x) - the variable's own dims are what counts
+                    ds = xr.Dataset(coords={"x": np.array(ge), "y": np.array(gn)})
+                    ds["v"] = (("y", "x"), vals)
                 out = vd.distance_mask(dc, maxdist, grid=ds, projection=f)
                 blank = np.isnan(out.v.values)
                 if not np.array_equal(blank, ~arr) or not np.array_equal(out.v.values[~blank], vals[~blank]):
